@@ -962,6 +962,20 @@ impl World {
             self.stats.inc("datagrams_with_uncompressed_block");
         }
         self.stats.max("max_datagram_len", bytes.len() as u64);
+        // the digest on the wire is the sender's member table (minus the members scheduled for deletion): same ids,
+        // same heartbeat / watermark / max version (C03: gossip never alters what it relays; C08)
+        if matches!(wmsg, WMsg::Syn { .. } | WMsg::SynAck { .. }) {
+            let cc = self.slots[slot].cc.as_ref().unwrap();
+            let sched: Vec<ChitchatId> = cc.scheduled_for_deletion_nodes().cloned().collect();
+            let mut want: Vec<(ChitchatId, u64, u64, u64)> = cc.node_states().iter().filter(|(id, _)| !sched.contains(id)).map(|(id, ns)| (id.clone(), ns.heartbeat().into(), ns.last_gc_version(), ns.max_version())).collect();
+            let mut got: Vec<(ChitchatId, u64, u64, u64)> = codec::msg_digest(&wmsg).iter().map(|e| (cid(&e.id), e.heartbeat, e.last_gc, e.max_version)).collect();
+            want.sort();
+            got.sort();
+            if want != got {
+                let diff: Vec<String> = got.iter().filter(|g| !want.contains(g)).take(3).map(|g| format!("{:?} hb {} gc {} mv {}", g.0, g.1, g.2, g.3)).collect();
+                self.fail(&["C03", "C08"], "digest.differs_from_member_table", format!("slot{slot}: the digest of an emitted {} ({} entries) is not the sender's member table ({} unscheduled members); entries not in the table: {diff:?}", codec::msg_kind(&wmsg), got.len(), want.len()));
+            }
+        }
         // C12: members dead for more than half the grace period are not mentioned any more
         let now = Instant::now();
         let half = self.cfg.dead_grace / 2;
